@@ -39,7 +39,7 @@ def check(run):
     if not pr["ok"]:
         broken.append("props/C08.v or a dependency no longer checks: %s %s" % (pr["failed_at"], pr["errors"]))
     run.coverage["trusted_base"] += [
-        "ASSUMED, validated by this run but not proved: pierrec/lz4 CompressBlock/UncompressBlock/CompressBlockBound meet lz4_block_contract and golang/snappy Encode/Decode meet snappy_contract (coq/model/Lz4Wrap.v)",
+        "ASSUMED, not proved; validated empirically by this run EXCEPT for the known finding lz4-offset-65536 (pinned pierrec/lz4 v4.0.3 is lossy on inputs with a match at distance >= 65536): pierrec/lz4 CompressBlock/UncompressBlock/CompressBlockBound meet lz4_block_contract and golang/snappy Encode/Decode meet snappy_contract (coq/model/Lz4Wrap.v)",
         "coq/model/Lz4Wrap.v: hand-written model of the wrappers, faithful as far as the correspondence run compares it",
     ]
     run.assumptions.append("third-party block codecs are lossless and behave as lz4_block_contract / snappy_contract state (named residual of this partial property)")
@@ -63,7 +63,8 @@ def check(run):
             nontrivial.add((key, r["class"], r["len"]))
             if not r["ok"]:
                 diag = r.get("diag") or {}
-                findings.append({"kind": diag.get("kind", "roundtrip-fails"), "algorithm": r["algo"], "format": r["fmt"], "class": r["class"], "len": r["len"],
+                findings.append({"kind": diag.get("kind", "roundtrip-fails"), "algorithm": r["algo"], "format": r["fmt"], "content": r["class"], "len": r["len"],
+                                 "class": "lz4-offset-65536" if diag.get("kind") == "lz4-block-corrupt-above-64KiB" else "lossless-failure", "run1": r.get("run1"),
                                  "seed": r.get("seed"), "detail": r.get("detail"), "diagnosis": diag, "input_hex": r.get("input_hex"),
                                  "what": "%s %s: Decompress(Compress x) != x for class %s, %d bytes: %s" % (r["algo"], r["fmt"], r["class"], r["len"], r.get("detail"))})
         elif k == "contract":
@@ -85,7 +86,8 @@ def check(run):
             if bad:
                 # the lossy-block defect shows here as "not exact"; it is reported once, by the round-trip predicate above
                 lossy_only = bad == ["UncompressBlock into a large-enough destination is not exact (dst %s)" % r.get("exact_fail_dst")] and r["len"] > 65536
-                findings.append({"kind": "lz4-block-corrupt-above-64KiB" if lossy_only else "lz4-contract-clause-fails", "class": r["class"], "len": r["len"], "clauses": bad,
+                findings.append({"kind": "lz4-block-corrupt-above-64KiB" if lossy_only else "lz4-contract-clause-fails", "content": r["class"], "len": r["len"], "clauses": bad,
+                                 "class": "lz4-offset-65536" if lossy_only else "lz4-contract", "algorithm": "lz4",
                                  "what": "pierrec/lz4 violates the assumed contract on class %s, %d bytes: %s" % (r["class"], r["len"], "; ".join(bad))})
         elif k == "contract_snappy":
             evaluations += 1
